@@ -1740,3 +1740,45 @@ func (fc *FC) RefutedAt(blk *ssa.BasicBlock, cond *RF) bool {
 	}
 	return fc.X.EvalCond(cond, as) == False
 }
+
+// InvariantEq: expr == want holds throughout the loop that carries the loop
+// counters occurring in expr: it holds on entry (counters at their initial
+// values) and is preserved by an iteration (counters at their next values
+// give the same expr). E.g. i+j == len-1 for i from 0 up and j from len-1 down.
+func (fc *FC) InvariantEq(expr, want *RF) bool {
+	if expr.Equal(want) {
+		return true
+	}
+	phs := fc.loopPhis(expr)
+	if len(phs) == 0 {
+		return false
+	}
+	initSub, nextSub := map[AtomID]*RF{}, map[AtomID]*RF{}
+	ok := true
+	func() {
+		defer func() {
+			if recover() != nil {
+				ok = false
+			}
+		}()
+		for _, p := range phs {
+			// only the counters occurring directly in expr are substituted
+			direct := false
+			for _, at := range expr.Atoms(false) {
+				if at.ID == p.SingleAtom().ID {
+					direct = true
+				}
+			}
+			if !direct {
+				continue
+			}
+			pi, pn := fc.Recurrence(p)
+			initSub[p.SingleAtom().ID] = pi
+			nextSub[p.SingleAtom().ID] = pn
+		}
+	}()
+	if !ok || len(initSub) == 0 {
+		return false
+	}
+	return expr.Subst(initSub).Equal(want) && expr.Subst(nextSub).Equal(expr)
+}
